@@ -428,7 +428,7 @@ def filler_form(rng):
     if k == 1:
         return b'"' + rng.choice([b"a", b"", b"\\r", b"\\n"]) + rng.choice([b"\\n", b"\\r", b"\\n\\n", b"\\r\\n"]) + rng.choice([b"", b"b", b"\\n"]) + b'"'
     if k == 2:
-        return b"``" + rng.choice([b"\n\n", b"\r\n\r\n", b"`\n", b"\n`\n", b" \n "]) + b"``"
+        return b"``" + rng.choice([b"\n\n", b"\r\n\r\n", b"a`\n", b"\n`\n", b" \n "]) + b"``"
     if k == 3:
         return symbol_token(rng)
     if k == 4:
